@@ -130,6 +130,10 @@ def check(src):
     want = ast.unparse(ast.fix_missing_locations(spec(tree))).strip()
     if ast.dump(ast.parse(want, mode="eval")) != ast.dump(out_tree):
         return f"transform({src!r}) = {out!r}, the statement prescribes {want!r}"
+    if has_union(tree) and "typing.Union" not in src:
+        alt = future.transform(src, union="U_")
+        if alt != out.replace("typing.Union[", "U_["):
+            return f"transform({src!r}, union='U_') = {alt!r}, expected the default rewriting with the union name replaced"
     if future.transform(out) != out:
         return f"transform is not a fixpoint on {out!r}: {future.transform(out)!r}"
     if not has_construct(tree) and ast.dump(out_tree) != ast.dump(tree):
